@@ -40,6 +40,28 @@ Proof.
 Qed.
 End F2.
 
+(** ---------- the position functions of the specification are firstn / skipn / nth_error at [Z.to_nat k] ---------- *)
+Section ZPos.
+Context {X : Type}.
+Lemma zfirstn_eq (k : Z) (l : list X) : zfirstn k l = firstn (Z.to_nat k) l.
+Proof.
+  unfold zfirstn. destruct (Z.le_gt_cases k (Z.of_nat (length l))) as [H|H].
+  - now rewrite Z.min_l.
+  - rewrite Z.min_r by lia. rewrite Nat2Z.id. rewrite !firstn_all2 by lia. reflexivity.
+Qed.
+Lemma zskipn_eq (k : Z) (l : list X) : zskipn k l = skipn (Z.to_nat k) l.
+Proof.
+  unfold zskipn. destruct (Z.le_gt_cases k (Z.of_nat (length l))) as [H|H].
+  - now rewrite Z.min_l.
+  - rewrite Z.min_r by lia. rewrite Nat2Z.id. rewrite !skipn_all2 by lia. reflexivity.
+Qed.
+Lemma znth_eq (k : Z) (l : list X) : znth k l = nth_error l (Z.to_nat k).
+Proof.
+  unfold znth. destruct (k <? Z.of_nat (length l)) eqn:H; [reflexivity|].
+  apply Z.ltb_ge in H. symmetry. apply nth_error_None. lia.
+Qed.
+End ZPos.
+
 Section Laws.
 Context {T M V A : Type}.
 Variable update : T -> option T -> option T -> T.
@@ -54,7 +76,8 @@ Variable aggf : list V -> A.
     have to be applied to everything below the node *)
 Variable Pending : T -> list M -> Prop.
 
-Definition acts (ms : list M) (v : V) : V := fold_left (fun v m => act m v) ms v.
+Notation acts := (Model.acts act).
+Notation mods := (Model.mods modify).
 Definition len (xs : list V) : Z := Z.of_nat (length xs).
 
 (** the root item [o] of a subtree summarises the sequence [xs] *)
@@ -86,6 +109,11 @@ Record lawful : Prop := {
 
 (** a freshly made item: one element, nothing pending *)
 Definition Fresh (x : T) : Prop := Pending x [] /\ agg x = aggf [elem x] /\ size x = 1.
+(** an item that is not inside a treap and summarises its own element only: one element, aggregate of that
+    one-element sequence, size 1, ANY pending tag (a fresh item, or the item that remove_at returned, after the
+    caller modified it any number of times: move-and-update).  The pending modifications have already been applied
+    to its own element (that is what [modify] does); they concern whatever is attached below it later. *)
+Definition Detached (x : T) : Prop := exists ms, Pending x ms /\ agg x = aggf [elem x] /\ size x = 1.
 
 Hypothesis LAW : lawful.
 
@@ -164,9 +192,27 @@ Proof.
   rewrite <- He. apply Rep_node; auto; rewrite He; auto.
 Qed.
 
-Lemma Rep_single x p : Fresh x -> Rep (single x p) [elem x].
+Lemma Fresh_Detached x : Fresh x -> Detached x.
+Proof. intros (Hp & Ha & Hs). exists []. auto. Qed.
+
+(** modifying a detached item keeps it detached; its element is acted upon *)
+Lemma Detached_modify m x : Detached x -> Detached (modify m x) /\ elem (modify m x) = act m (elem x).
 Proof.
-  intros (Hp & Ha & Hs). unfold single. apply (Rep_node E x p E [] []); auto; try constructor.
+  intros (ms & Hp & Ha & Hs). destruct (law_modify LAW m x) as (He & Hag & Hpe).
+  destruct (Hag [elem x] Ha Hs) as [Ha' Hs']. simpl in He, Ha'. split; [|exact He].
+  exists (ms ++ [m]). rewrite He. auto.
+Qed.
+Lemma Detached_mods ms : forall x, Detached x -> Detached (mods ms x) /\ elem (mods ms x) = acts ms (elem x).
+Proof.
+  induction ms as [|m ms IH]; intros x Hx; [split; [exact Hx|reflexivity]|].
+  destruct (Detached_modify m x Hx) as [Hd He]. destruct (IH (modify m x) Hd) as [Hd' He'].
+  split; [exact Hd'|]. unfold Model.mods, Model.acts in *. cbn [fold_left]. now rewrite He', He.
+Qed.
+
+(** a single node holding a detached item denotes its one element, whatever is pending on it *)
+Lemma Rep_single x p : Detached x -> Rep (single x p) [elem x].
+Proof.
+  intros (ms & Hp & Ha & Hs). unfold single. eapply RepN with (ms := ms) (ls := []) (rs := []); eauto; constructor.
 Qed.
 
 (** ---------- merge ---------- *)
@@ -379,7 +425,7 @@ Proof.
 Qed.
 
 (** ---------- insert_at, remove_at ---------- *)
-Lemma insert_at_rep t k x p xs : Rep t xs -> Fresh x ->
+Lemma insert_at_rep t k x p xs : Rep t xs -> Detached x ->
   Rep (insert_at update push size t k x p) (firstn (Z.to_nat k) xs ++ elem x :: skipn (Z.to_nat k) xs).
 Proof.
   intros HR HF. unfold insert_at. destruct (split_at update push size t None k) as [l r] eqn:ES.
@@ -477,8 +523,11 @@ Qed.
 
 (** ---------- the machine refines the list-of-lists specification ---------- *)
 Notation op := (@op T M V).
-Definition op_fresh (o : op) : Prop :=
-  match o with FromItem x => Fresh x | InsertAt _ _ x => Fresh x | _ => True end.
+(** what the history theorem asks of the items that the caller hands to from_item / insert_at: they are
+    [Detached] (one element, any pending tag).  The item that [Move] inserts is the one remove_at returned
+    ([Fresh], proved) after the caller's modifications: [Detached] by [Detached_mods], nothing to assume. *)
+Definition op_detached (o : op) : Prop :=
+  match o with FromItem x => Detached x | InsertAt _ _ x => Detached x | _ => True end.
 (** every item that the machine hands out through remove_at is [Fresh] *)
 Definition out_fresh (o : @output T V A) : Prop := match o with ORemoved x => Fresh x | _ => True end.
 
@@ -501,7 +550,7 @@ Ltac nth_cases H i st sst :=
 Ltac outs := cbn [out_elem out_fresh]; split; [reflexivity | solve [exact I | assumption]].
 
 Lemma step_rep st sst ps o sst' out st' ps' out' :
-  Forall2 Rep st sst -> op_fresh o ->
+  Forall2 Rep st sst -> op_detached o ->
   sstep elem act aggf sst o = Some (sst', out) ->
   step update push size modify elem agg st ps o = (st', ps', out') ->
   Forall2 Rep st' sst' /\ out_elem elem out' = out /\ out_fresh out'.
@@ -520,7 +569,7 @@ Proof.
     + destruct H1 as (Ht & Hr). destruct (split_at update push size t None k) as [a b] eqn:ES.
       injection HS as <- <-. injection HM as <- <- <-. split; [|now outs].
       destruct (split_at_rep_gen t None k xs a b) as [Ha Hb]; [now rewrite set_item_None | exact ES |].
-      apply F2_snoc2; auto.
+      rewrite zfirstn_eq, zskipn_eq. apply F2_snoc2; auto.
     + injection HS as <- <-. injection HM as <- <- <-. split; [assumption|outs].
   - (* SplitBy *) pose proof (F2_take1 Rep st sst i H) as H1.
     destruct (take1 i st) as [[t rest]|], (take1 i sst) as [[xs xrest]|]; try contradiction.
@@ -532,12 +581,12 @@ Proof.
     + injection HS as <- <-. injection HM as <- <- <-. split; [assumption|outs].
   - (* InsertAt *) nth_cases H i st sst.
     + destruct (next_prio ps) as [p ps1]. injection HS as <- <-. injection HM as <- <- <-. split; [|now outs].
-      apply F2_replace; auto. now apply insert_at_rep.
+      rewrite zfirstn_eq, zskipn_eq. apply F2_replace; auto. now apply insert_at_rep.
     + injection HS as <- <-. injection HM as <- <- <-. split; [assumption|outs].
   - (* RemoveAt *) nth_cases H i st sst.
     + destruct (remove_at update push size t k) as [t' res] eqn:ER.
       destruct (remove_at_rep t k xs t' res Hn ER) as (HR' & Hres & Hfr).
-      injection HM as <- <- <-.
+      injection HM as <- <- <-. rewrite znth_eq in HS.
       destruct (nth_error xs (Z.to_nat k)) as [v|] eqn:En.
       * injection HS as <- <-. destruct res as [x|]; simpl in Hres; [|discriminate].
         injection Hres as Hv. subst v. specialize (Hfr x eq_refl). split; [|now outs]. apply F2_replace; auto.
@@ -580,7 +629,7 @@ Proof.
     destruct (nth_error st j) as [tj|]; destruct (nth_error sst j) as [xj|]; simpl in Hj; try contradiction;
       [|injection HS as <- <-; injection HM as <- <- <-; split; [assumption|outs]].
     destruct (remove_at update push size t k) as [t' res] eqn:ER.
-    destruct (remove_at_rep t k xs t' res Hi ER) as (HR' & Hres & Hfr).
+    destruct (remove_at_rep t k xs t' res Hi ER) as (HR' & Hres & Hfr). rewrite znth_eq in HS.
     destruct (nth_error xs (Z.to_nat k)) as [v|] eqn:En.
     + destruct res as [x|]; simpl in Hres; [|discriminate]. injection Hres as Hv. subst v. specialize (Hfr x eq_refl).
       assert (H1 : Forall2 Rep (replace_nth i t' st)
@@ -590,7 +639,9 @@ Proof.
         destruct (nth_error (replace_nth i (firstn (Z.to_nat k) xs ++ skipn (S (Z.to_nat k)) xs) sst) j) as [ys|];
         simpl in Hj1; try contradiction.
       * destruct (next_prio ps) as [p ps1]. injection HS as <- <-. injection HM as <- <- <-.
-        split; [|now outs]. apply F2_replace; auto. apply insert_at_rep; auto.
+        split; [|now outs]. rewrite zfirstn_eq, zskipn_eq. apply F2_replace; auto.
+        destruct (Detached_mods ms x (Fresh_Detached x Hfr)) as [Hd He]. rewrite <- He.
+        apply insert_at_rep; auto.
       * injection HS as <- <-. injection HM as <- <- <-. split; [assumption|outs].
     + destruct res as [x|]; simpl in Hres; [discriminate|].
       injection HS as <- <-. injection HM as <- <- <-. split; [|now outs].
@@ -599,7 +650,7 @@ Proof.
 Qed.
 
 Lemma run_rep ops : forall st sst ps sst' outs,
-  Forall2 Rep st sst -> Forall op_fresh ops ->
+  Forall2 Rep st sst -> Forall op_detached ops ->
   srun elem act aggf sst ops = Some (sst', outs) ->
   Forall2 Rep (fst (fst (run update push size modify elem agg st ps ops))) sst'
   /\ map (out_elem elem) (snd (run update push size modify elem agg st ps ops)) = outs
@@ -655,7 +706,7 @@ Proof.
 Qed.
 
 Theorem history ps ops sst outs :
-  Forall op_fresh ops -> srun elem act aggf [] ops = Some (sst, outs) ->
+  Forall op_detached ops -> srun elem act aggf [] ops = Some (sst, outs) ->
   map (out_elem elem) (run_outputs update push size modify elem agg ps ops) = outs
   /\ Forall out_fresh (run_outputs update push size modify elem agg ps ops)
   /\ Forall2 Rep (run_final update push size modify elem agg ps ops) sst.
